@@ -1,7 +1,7 @@
 (* C17 — Emitted bytecode is well formed and the VM cannot be crashed.
    Property theorems only; proofs are [exact <lemma>]. *)
 From Coq Require Import ZArith NArith List String.
-From EvyV Require Import Base SymTab SymTabProofs Bytecode BytecodeProofs Vm VmProofs Compile CompileWfProofs CompileSymProofs CompileCtlProofs.
+From EvyV Require Import Base SymTab SymTabProofs Bytecode BytecodeProofs Vm VmProofs Compile CompileSem CompileWfProofs CompileSymProofs CompileCtlProofs.
 Require Import EvyV.Gen.Opcodes.
 Import ListNotations.
 Open Scope N_scope.
